@@ -32,7 +32,7 @@ EXPLANATION = (
 LEVEL_TEXT = EXPLANATION + " Exhaustive over the listed member kinds (80 ordered unions x all valuations)."
 LEVEL_NOTE = ("Not decided: which inputs each member conversion accepts (they are run-time atoms), unions whose members share a "
               "wire form (excluded by the property). Known genuine findings are listed in known_findings.json.")
-ASSUMPTIONS = ["member kinds {exact-match scalar, None, converting} represent all union members", "helper type predicates as in dispatch.HELPER_MODEL"]
+ASSUMPTIONS = ["member kinds {exact-match scalar, None, converting} represent all union members", "helper type predicates as in dispatch.HELPER_MODEL outside the probe set of R02.8"]
 
 MEMBERS = [int, str, type(None), datetime.date, decimal.Decimal]
 SCALAR = {int: "int", str: "str", type(None): "NoneType", float: "float", bool: "bool"}
@@ -400,3 +400,20 @@ def run(repo, rep, tier):  # noqa: F811 -- round-6 remedies, batch 3
 _ADDR6D = ' R11.14: the union unpacker reuses the method under construction only when `spec.owner is spec.type`.'
 EXPLANATION += _ADDR6D
 LEVEL_TEXT += _ADDR6D
+
+
+_run_before_r7tp = run
+
+
+def run(repo, rep, tier):  # noqa: F811 -- round 7: type-level helper contracts borrowed from C02
+    _run_before_r7tp(repo, rep, tier)
+    if getattr(rep, "borrowed", False):
+        return
+    from ..core import typepreds as _tp7
+    _tp7.model_agreement(repo, rep, "R02.8", tier)
+    _tp7.reference_cases(repo, rep, "R02.9")
+
+
+_ADDR7TP = " Borrowed: R02.8 / R02.9 (the type predicates and type-level helpers, interpreted from their own source over the catalogue types and a reference table, answer as the dispatch model and the documentation say)."
+EXPLANATION += _ADDR7TP
+LEVEL_TEXT += _ADDR7TP
